@@ -709,11 +709,33 @@ func (x *Exec) applyPred(sf *SpecFunc, n *ast.CallExpr, st *State, env *Env) Val
 		if strings.Contains(body, "$") {
 			panic(unsupported("pred " + sf.Name + ": a slice parameter is used other than by reading its elements"))
 		}
+		// any other heap the body reads (through slices stored inside the elements) becomes an implicit parameter
+		var implicit []string
+		for _, es := range sortedKeys(c.heapSorts) {
+			hn, ok := st.heaps[es]
+			if !ok || !containsSymbol(body, hn) {
+				continue
+			}
+			pn := "pH" + sortKey(es)
+			body = replaceSymbol(body, hn, pn)
+			sorts = append(sorts, c.heapName(es))
+			decls = append(decls, fmt.Sprintf("(%s %s)", pn, c.heapName(es)))
+			formals = append(formals, pn)
+			implicit = append(implicit, es)
+		}
+		c.predImplicit[fname] = implicit
 		c.declare(fname, fmt.Sprintf("(declare-fun %s (%s) Bool)", fname, strings.Join(sorts, " ")))
 		call := app(fname, formals...)
 		c.decls = append(c.decls, fmt.Sprintf("(assert (forall (%s) (! (= %s %s) :pattern (%s))))", strings.Join(decls, " "), call, body, call))
 	}
+	for _, es := range c.predImplicit[fname] {
+		actual = append(actual, x.heap(st, es))
+	}
 	return Val{T: app(fname, actual...), Ty: tBool}
+}
+
+func containsSymbol(t, sym string) bool {
+	return replaceSymbol(t, sym, "\x00") != t
 }
 
 func (x *Exec) applySpec(sf *SpecFunc, n *ast.CallExpr, st *State, env *Env) Val {
